@@ -77,7 +77,8 @@ def parse_strace(text, cwd0):
     return acts
 
 
-PATHFORMS = ['bare', 'dot', 'sub', 'subslash', 'dotdot', 'abs', 'noext', 'dots', 'abs-sub', 'trail']
+PATHFORMS = ['bare', 'dot', 'sub', 'subslash', 'dotdot', 'abs', 'noext', 'dots', 'abs-sub', 'trail', 'longdir', 'abs-longdir', 'dotdir-noext']
+LONGDIR = 'sub/' + 'L' * 140 + '.d/' + 'M' * 150   # directory part longer than NAME_MAX (255) bytes, far below PATH_MAX
 CWDFORMS = ['out', 'root', 'elsewhere']
 OPTS = [[], ['-c'], ['-f', '1'], ['-c', '-f', '2', '-t', '3'], ['-p', '-g'], ['-m', '-c'], ['-d', 'gnu-ld'], ['-d', 'gnu-ld', '-c', '-f', '1'],
         ['-r', 'REF', '-f', '1'], ['-r', 'REF', '-c', '-f', '3', '-t', '2'], ['-r', 'REF'], ['-f', '100'], ['-c', '-t', '8', '-f', '1']]
@@ -95,15 +96,20 @@ def make_case(rnd, k, root, modules):
     opts = OPTS[(k // 7) % len(OPTS)]
     cwd = {'out': os.path.join(root, 'out'), 'root': root, 'elsewhere': os.path.join(root, 'elsewhere')}[cf]
     outdir_rel = {'bare': '', 'dot': '.', 'sub': 'sub', 'subslash': 'sub/', 'dotdot': '../out', 'abs': None, 'noext': '', 'dots': 'sub',
-                  'abs-sub': None, 'trail': 'sub'}[pf]
+                  'abs-sub': None, 'trail': 'sub', 'longdir': LONGDIR, 'abs-longdir': None, 'dotdir-noext': 'sub/rel.1.2'}[pf]
     base = {'bare': 'prog.c', 'dot': 'x.c', 'sub': 'y.c', 'subslash': 'z.c', 'dotdot': 'w.c', 'abs': 'a.c', 'noext': 'noext', 'dots': 'a.b.c',
-            'abs-sub': 'q.c', 'trail': 't.c'}[pf]
+            'abs-sub': 'q.c', 'trail': 't.c', 'longdir': 'v.c', 'abs-longdir': 'u.c', 'dotdir-noext': 'module'}[pf]
+    os.makedirs(os.path.join(root, 'out', LONGDIR), exist_ok=True)
+    os.makedirs(os.path.join(root, 'out', 'sub', 'rel.1.2'), exist_ok=True)
     # target directory (absolute) when cwd == out; for other cwds the relative forms resolve against that cwd
     if pf == 'abs':
         target_dir = os.path.join(root, 'out')
         outarg = os.path.join(target_dir, base)
     elif pf == 'abs-sub':
         target_dir = os.path.join(root, 'out', 'sub')
+        outarg = os.path.join(target_dir, base)
+    elif pf == 'abs-longdir':
+        target_dir = os.path.join(root, 'out', LONGDIR)
         outarg = os.path.join(target_dir, base)
     else:
         if cf == 'root':
